@@ -93,7 +93,12 @@ where
 
         let s1_idx = population.iter().position(|i| i == s1).unwrap();
         let s1_molecule = &reaction[s1_idx];
-        let s2_idx = population.iter().position(|i| i == s2).unwrap();
+        // Two distinct molecules may hold equal individuals, so don't find the first one again.
+        let s2_idx = population
+            .iter()
+            .enumerate()
+            .position(|(idx, i)| idx != s1_idx && i == s2)
+            .ok_or_else(|| eyre!("couldn't find selected individual in population"))?;
         let s2_molecule = &reaction[s2_idx];
 
         Ok(s1_molecule.kinetic_energy <= self.beta && s2_molecule.kinetic_energy <= self.beta)
